@@ -141,7 +141,7 @@ def _extract_revision(str_version):
     )
 
 
-class InvalidNuGetVersion(Exception):
+class InvalidNuGetVersion(ValueError):
     pass
 
 
